@@ -188,11 +188,24 @@ func planClusterPushdown(opts *Opts, query *sql.Query) (core.FlatRowSource, erro
 	return addOrderLimitOffset(flat, query), nil
 }
 
+// lowerASCII lower-cases the ASCII letters of s and nothing else, so that byte
+// offsets found in the result are valid offsets into s (strings.ToLower can
+// change the length of non-ASCII text).
+func lowerASCII(s string) string {
+	b := []byte(s)
+	for i, c := range b {
+		if 'A' <= c && c <= 'Z' {
+			b[i] = c + ('a' - 'A')
+		}
+	}
+	return string(b)
+}
+
 func planClusterNonPushdown(opts *Opts, query *sql.Query) (core.FlatRowSource, error) {
 	// Remove group by, having, order by and limit from query
 	sqlString := query.SQL
 	crosstabString := concatForCrosstab(sqlString)
-	lowerSQL := strings.ToLower(sqlString)
+	lowerSQL := lowerASCII(sqlString)
 	indexOfGroupBy := strings.Index(lowerSQL, "group by ")
 	indexOfHaving := strings.Index(lowerSQL, "having ")
 	indexOfOrderBy := strings.Index(lowerSQL, "order by ")
@@ -209,11 +222,12 @@ func planClusterNonPushdown(opts *Opts, query *sql.Query) (core.FlatRowSource, e
 
 	if query.HasHaving {
 		// Insert having field
-		fromRegex, err := regexp.Compile(fmt.Sprintf("from\\s+%v", strings.ToLower(query.FromSQL)))
+		fromRegex, err := regexp.Compile(fmt.Sprintf("from\\s+%v", lowerASCII(query.FromSQL)))
 		if err != nil {
 			return nil, fmt.Errorf("Unable to compile from regex: %v", err)
 		}
-		fromIndexes := fromRegex.FindStringIndex(lowerSQL)
+		// sqlString may have been truncated above: look for FROM only in what is left of it
+		fromIndexes := fromRegex.FindStringIndex(lowerSQL[:len(sqlString)])
 		if len(fromIndexes) == 0 {
 			return nil, fmt.Errorf("FROM clause not found!")
 		}
